@@ -75,11 +75,21 @@ Theorem C08_exporter_output_in_family : forall pre bs, bs <> [] -> typed_pre pre
 Proof. exact exporter_output_in_family. Qed.
 Print Assumptions C08_exporter_output_in_family.
 
-(* KNOWN FINDING (keys outside the int64 range): read_integer wraps them, so 2^64-1 is taken for key -1 and -2^64 for key 0;
-   the relation therefore restricts keys to the int64 range, and the wrap is exhibited here *)
-Theorem C08_bigkey_refuted : to_i64 18446744073709551615 = (-1)%Z /\ neg_of 18446744073709551615 = 0%Z.
-Proof. vm_compute. split; reflexivity. Qed.
-Print Assumptions C08_bigkey_refuted.
+(* keys outside the int64 range (defect F15, repaired in /repo: read_integer / read_negative clamp instead of wrapping, so 2^64-1 is no longer
+   taken for key -1 nor -2^64 for key 0): the relation above admits ANY integer item as a key ([key_enc]); a key outside the range reads as
+   an end of the range, and no structure defines a key there - every descriptor's keys lie in [-128, 255] - so it is an unknown member *)
+Theorem C08_wide_keys_clamped : forall n, two63 <= n -> clamp_i64 n = (Z.of_N two63 - 1)%Z /\ neg_of n = (- Z.of_N two63)%Z.
+Proof. intros n H. unfold clamp_i64, neg_of. assert (n <? two63 = false) as -> by lia. split; reflexivity. Qed.
+Print Assumptions C08_wide_keys_clamped.
+Theorem C08_no_key_at_the_ends :
+  forallb (fun t => match t with TMap _ _ fs => forallb (fun k => (-128 <=? k)%Z && (k <? 256)%Z) (fkeys fs) | _ => true end) all_descriptors = true.
+Proof. vm_compute. reflexivity. Qed.
+Print Assumptions C08_no_key_at_the_ends.
+Example C08_wide_keys_ignored :
+  (* {0: 28, -2^64: 0, 1: 1, 2^64-1: 7} read as a ClassType: type 28, class 1 *)
+  run (read_val 60 ClassType) [164; 0; 24; 28; 59; 255; 255; 255; 255; 255; 255; 255; 255; 0; 1; 1; 27; 255; 255; 255; 255; 255; 255; 255; 255; 7; 9] =
+    (inl (VR [Some (VN 28); Some (VN 1)]), [9]).
+Proof. vm_compute. reflexivity. Qed.
 
 (* non-vacuity: a ClassType map written indefinite-length, members swapped, widened heads, and an unknown key carrying a tagged float *)
 Example C08_nonvacuous :
